@@ -107,6 +107,8 @@ type Engine struct {
 	maxLoop     int
 	hostDirs    map[string]bool
 	hostFS      bool
+	started     time.Time
+	fixedNow    *int64
 	hostPkg     *ssa.Package
 	divDefs     map[[3]uint64][2]*Term
 	defOf       map[*Term]*Term
